@@ -245,7 +245,11 @@ pub fn simulate(
         if let Some(g) = glob {
             let comps: Vec<&str> = if cand.is_empty() { Vec::new() } else { cand.split('/').collect() };
             let n = comps.len().min(g.components.len());
-            let mismatch = (0..n).any(|i| !g.components[i].is_match(comps[i]));
+            // The walker compares components from the one before the entry's own level onwards
+            // (ancestors were compared when they were produced; under a minimum depth they were
+            // not produced and are not compared).
+            let lo = e.depth.saturating_sub(1).min(n);
+            let mismatch = (lo..n).any(|i| !g.components[i].is_match(comps[i]));
             if mismatch {
                 kept = false;
                 tree = true;
